@@ -154,11 +154,15 @@ pub open spec fn chain_ok(parts_len: int, mid: Seq<usize>) -> bool {
     parts_len == mid.len() + 1 && forall|i: int, j: int| 0 <= i < j < mid.len() ==> mid[i] <= mid[j]
 }
 /// R-ppoint target: `s.partition_point(|x| *x <= k)` on a sorted slice is the number of elements <= k
-#[verifier::external_body]
-pub fn vx_partition_point_le(s: &Vec<usize>, k: usize) -> (r: usize)
-    requires forall|i: int, j: int| 0 <= i < j < s@.len() ==> s@[i] <= s@[j],
-    ensures r <= s@.len(), forall|i: int| 0 <= i < s@.len() ==> ((#[trigger] s@[i]) <= k) == (i < r),
-{ unimplemented!() }
+pub trait VxPartitionPoint { fn vx_partition_point_le(&self, k: usize) -> usize; }
+impl VxPartitionPoint for Vec<usize> {
+    #[verifier::external_body]
+    fn vx_partition_point_le(&self, k: usize) -> (r: usize)
+        ensures
+            (forall|i: int, j: int| 0 <= i < j < self@.len() ==> self@[i] <= self@[j]) ==>
+                r <= self@.len() && forall|i: int| 0 <= i < self@.len() ==> ((#[trigger] self@[i]) <= k) == (i < r),
+    { unimplemented!() }
+}
 
 // @@EXTRACTED@@
 
